@@ -70,7 +70,8 @@ class Module:
         from . import alpha, canon
         # semantics-preserving canonicalisation: inline functions / locals the reference tree does not have,
         # rename locals back to the reference names (see vk/canon.py, vk/alpha.py)
-        consts = canon.inline_new_constants(relpath, self.tree)
+        imps = canon.normalise_imports(relpath, self.tree)
+        consts = imps + canon.inline_new_constants(relpath, self.tree)
         self.idioms = canon.normalise_idioms(self.tree)
         self.canon, self.canon_refused = canon.canonicalise(relpath, self.tree)
         self.canon = consts + list(self.canon)
